@@ -781,5 +781,14 @@ func (c *Client) Do(ctx context.Context, q Query) (err error) {
 		}
 		return nil
 	})
-	return g.Wait()
+	if err := g.Wait(); err != nil {
+		if !c.IsClosed() {
+			// The client stays usable, e.g. after a server exception. Drop
+			// whatever was encoded for the failed query but not flushed yet,
+			// so that it is not sent ahead of the next request.
+			c.writer = proto.NewWriter(c.conn, new(proto.Buffer))
+		}
+		return err
+	}
+	return nil
 }
